@@ -137,6 +137,31 @@ def run(prog, rep, tier):
             if labs != "field:file_metadata_modified":
                 rep.violation(R112, inst, "BlockReader::mtime: %s files take their modification time from %s, expected the filesystem time" % (a, sorted(lt)))
 
+    # the stored time itself: read from the container header unconditionally (only the header's presence may gate it)
+    nb = prog.body(BR + "::new")
+    hm = [c for c in nb.live_calls() if c.d.endswith("GzHeader::mtime") or (c.d.endswith("::mtime") and ("flate2" in c.d or "tar::" in c.d))]
+    if len(hm) < 2:
+        raise CheckerError("BlockReader::new: %d container-header mtime reads (gz and tar expected)" % len(hm))
+    for c in hm:
+        gates = []
+        for bb in sorted(nb.live):
+            t = nb.term(bb)
+            if t[0] != "switch" or not nb.dominates(bb, c.bb) or bb == c.bb:
+                continue
+            sd = decide.switch_decisions(nb, bb)
+            if not sd:
+                continue
+            for tgt, d in sd:
+                if d[0] in ("variant", "variant_not") and d[1][0] == "call" and tgt != bb and nb.dominates(tgt, c.bb) and nb.pred[tgt] == [bb]:
+                    gates.append(d[1][1])
+        kind = "gz" if "flate2" in c.d or "GzHeader" in c.d else "tar"
+        # (for tar the member lookup by path legitimately gates the read)
+        optional = ("filename", "comment", "extra") if kind == "gz" else ("link_name", "username", "groupname", "link_name_bytes")
+        foreign = [g for g in gates if g in optional]
+        rep.examined(R112, "%s|%s-header-mtime" % (nb.path, kind), sample={"container": kind, "read_gated_by_results_of": sorted(set(gates)), "foreign_gates": foreign})
+        if foreign:
+            rep.violation(R112, "%s|%s-header-mtime" % (nb.path, kind), "BlockReader::new: the modification time stored in the %s header is only read when the header's %s is present; archives written without that optional field fall back to the archive file's own time and year-less logs get the wrong year" % (kind, foreign[0]))
+
     # ------------------------------------------------------------ R11.3
     bz = prog.body(SP + "::blockzero_analysis_syslines")
     dis = [c for c in bz.live_calls() if c.d.endswith("::disable_drop_data")]
@@ -287,6 +312,50 @@ def run(prog, rep, tier):
         raise CheckerError("process_missing_year: loop structure not recognised")
     if bad_exit:
         rep.violation(R114, pb.path + "|rollover-before-exit", "process_missing_year: the walk can stop (line %s) after reading a message without testing it for a year rollover; a December-to-January wrap right after the first message of the file leaves that message in the wrong year" % bad_exit[1])
+
+    # R11.5: the walk may stop early only at a message strictly before --dt-after (messages exactly on the bound
+    #        are inside the window and still need their year)
+    R115 = rep.rule("R11.5", "the backward walk stops early only strictly before --dt-after")
+    dt1 = {v["idx"]: v["name"] for v in facts.adts["s4lib::data::datetime::Result_Filter_DateTime1"]["variants"]}
+    stops = []
+    for x in sorted(L):
+        t = pb.term(x)
+        if t[0] != "switch":
+            continue
+        outs = [s_ for s_ in pb.succ[x] if s_ not in L and pb.term(s_)[0] != "unreachable"]
+        if not outs:
+            continue
+        sd = decide.switch_decisions(pb, x)
+        if not sd:
+            continue
+        for tgt, d in sd:
+            if tgt not in outs:
+                continue
+            if d[0] == "variant" and d[1][0] == "call" and d[1][1] in ("dt_after_or_before", "sysline_dt_after_or_before"):
+                stops.append(("predicate", dt1.get(d[2]), pb.blocks[x].get("l")))
+            elif d[0] == "variant_not" and d[1][0] == "call" and d[1][1] in ("dt_after_or_before", "sysline_dt_after_or_before"):
+                names_ = [n for i, n in dt1.items() if i not in d[2]]
+                for n in names_:
+                    stops.append(("predicate", n, pb.blocks[x].get("l")))
+            elif d[0] == "cmp":
+                roots = (d[2], d[3])
+                if any(r[0] == "arg" and r[1] == 3 for r in roots):
+                    # normalise to t OP A
+                    op, outcome = d[1], d[4]
+                    a_left = roots[0][0] == "arg" and roots[0][1] == 3
+                    if a_left:
+                        op = {"lt": "gt", "gt": "lt", "le": "ge", "ge": "le"}.get(op, op)
+                    if not outcome:
+                        op = decide.NEG[op]
+                    stops.append(("compare", op, pb.blocks[x].get("l")))
+    rep.examined(R115, pb.path + "|early-stop", sample={"stops_depending_on_the_after_bound": stops})
+    for kind, what, line in stops:
+        if kind == "predicate" and what != "OccursBefore":
+            rep.violation(R115, pb.path + "|early-stop", "process_missing_year: the backward walk stops (line %s) on the verdict %s; only a message strictly before --dt-after may end it" % (line, what))
+        if kind == "compare" and what != "lt":
+            rep.violation(R115, pb.path + "|early-stop", "process_missing_year: the backward walk stops (line %s) when the message time is %s the --dt-after bound; messages exactly on the bound are inside the window and the tied ones before it never get their year" % (line, what))
+    if not stops:
+        rep.info("process_missing_year has no early stop on --dt-after (slower, not wrong)")
 
     return rep.finish(
         "Static necessary-condition check of year inference: it runs exactly for year-less patterns, before streaming, seeded by the reader's "
